@@ -240,6 +240,22 @@ func (e *Engine) evalSpec(x *Expr, se *SpecEnv) Val {
 			}
 			pat = " :pattern (" + strings.Join(ps, " ") + ")"
 		}
+		if pat == "" && x.Op == "forall" {
+			// automatic trigger: one idx(·) term per bound variable, when every variable indexes an element
+			var ps []string
+			ok := true
+			for _, bv := range x.Vars {
+				t := "(idx q_" + bv.Name + ")"
+				if strings.Contains(body.S, t) {
+					ps = append(ps, t)
+				} else {
+					ok = false
+				}
+			}
+			if ok && len(ps) > 0 {
+				pat = " :pattern (" + strings.Join(ps, " ") + ")"
+			}
+		}
 		if pat != "" {
 			return mkBool(T(SBool, "(%s (%s) (! %s%s))", x.Op, strings.Join(decls, " "), body.S, pat))
 		}
@@ -561,6 +577,35 @@ func (e *Engine) evalCall(x *Expr, se *SpecEnv) Val {
 		return mkBool(e.unchangedAll(se))
 	case "wf":
 		return mkBool(e.wellFormed(arg(0), se.st.next))
+	case "param":
+		// param(x): the entry value of parameter x (when a local variable shadows it)
+		if v, ok := e.params[x.Args[0].Name]; ok {
+			return v
+		}
+		panic(unsupported("param(%s): no such parameter", x.Args[0].Name))
+	case "isnan":
+		a := arg(0)
+		if a.L[0].Sort.IsFP() {
+			return mkBool(T(SBool, "(fp.isNaN %s)", a.L[0].S))
+		}
+		return mkBool(False)
+	case "absw":
+		// absw(v): the magnitude of an integer as a (w+1)-bit unsigned quantity (never overflows)
+		a := arg(0)
+		t := a.L[0]
+		if !t.Sort.IsBV() {
+			return mkInt(Ite(Ge(t, IntLit(0)), t, T(SInt, "(- %s)", t.S)))
+		}
+		w := t.Sort.BVWidth()
+		ws := BV(65)
+		var wide Term
+		if isSignedInt(a.T) && !e.isUnsigned(a.T) {
+			wide = T(ws, "((_ sign_extend %d) %s)", 65-w, t.S)
+		} else {
+			wide = T(ws, "((_ zero_extend %d) %s)", 65-w, t.S)
+		}
+		mag := T(ws, "(ite (bvslt %s (_ bv0 65)) (bvneg %s) %s)", wide.S, wide.S, wide.S)
+		return Val{T: types.Typ[types.Uint64], L: []Term{mag}}
 	case "mark":
 		// mark(x): an always-true marker used purely as an instantiation trigger
 		a := arg(0)
